@@ -12,7 +12,12 @@ func Select(list List, limit int, selector func(Doc) (bool, bool)) List {
 	// prepare result
 	var result List
 	if limit > 0 {
-		result = make(List, 0, limit)
+		// the limit may exceed the list by far
+		capacity := limit
+		if capacity > len(list) {
+			capacity = len(list)
+		}
+		result = make(List, 0, capacity)
 	}
 
 	// select documents
